@@ -6,6 +6,7 @@ import (
 	"fmt"
 	"os"
 	"path/filepath"
+	"runtime"
 	"sort"
 	"strings"
 )
@@ -204,6 +205,8 @@ type runResult struct {
 	KnownBy    map[int]Finding
 	FloorFails []string
 	Stale      []Finding
+	// Configs: per additional build configuration analysed in the thorough tier, a summary line
+	Configs []string
 }
 
 func runProperty(c *Ctx, p *Property, tier string, findings []Finding) *runResult {
@@ -387,6 +390,9 @@ func writeEvidence(c *Ctx, verifDir string, res *runResult, seed int, wall float
 		"clauses_not_decided":  p.NotDecided,
 		"violations_new":       res.NewViol,
 		"stale_known_findings": len(res.Stale),
+	}
+	if len(res.Configs) > 0 {
+		cov["build_configurations"] = append([]string{"host: " + runtime.GOOS + "/" + runtime.GOARCH + " (all figures above)"}, res.Configs...)
 	}
 	ev := evidence{
 		PropertyID: p.ID, Tier: res.Tier, Seed: seed, Level: "other", Coverage: cov,
